@@ -464,14 +464,7 @@ func checkC01(c *Ctx, r *Report) {
 	}
 
 	// role byte agreement with RAKP Message 1 byte 24
-	r.Rule("role-byte-wire", "byte 24 of RAKP Message 1 is (level & 0xF) | (name-only ? 0x10 : 0), the same role byte that is hashed", 1)
-	if ser := c.Method("pkg/ipmi", "RAKPMessage1", "SerializeTo"); ser == nil {
-		r.Lost("ipmi.RAKPMessage1.SerializeTo")
-	} else {
-		r.Fn(c.FnName(ser))
-		okRole, whyRole := roleByteWire(c, ser)
-		r.Check(okRole, c.FnName(ser)+"|d[24]", ser.Pos(), "d[24] = level&0xF, |= 0x10 iff !PrivilegeLevelLookup", "byte 24 of RAKP Message 1 is not level&0xF | (name-only?0x10:0): "+whyRole)
-	}
+	checkRoleByteWire(c, r)
 
 	// ---- (3) key wiring
 	checkKeyWiring(c, r, found)
@@ -1712,4 +1705,18 @@ func canonRootSel(addr ssa.Value) (ssa.Value, string) {
 		addr = fa.X
 	}
 	return canonValue(addr), last
+}
+
+// checkRoleByteWire: byte 24 of RAKP Message 1 carries the privilege nibble and the name-only
+// lookup flag for every value of the two fields (shared with C06: the flag shares a byte with
+// the level, and is the caller's whatever the username).
+func checkRoleByteWire(c *Ctx, r *Report) {
+	r.Rule("role-byte-wire", "byte 24 of RAKP Message 1 is (level & 0xF) | (name-only ? 0x10 : 0), the same role byte that is hashed", 1)
+	if ser := c.Method("pkg/ipmi", "RAKPMessage1", "SerializeTo"); ser == nil {
+		r.Lost("ipmi.RAKPMessage1.SerializeTo")
+	} else {
+		r.Fn(c.FnName(ser))
+		okRole, whyRole := roleByteWire(c, ser)
+		r.Check(okRole, c.FnName(ser)+"|d[24]", ser.Pos(), "d[24] = level&0xF, |= 0x10 iff !PrivilegeLevelLookup", "byte 24 of RAKP Message 1 is not level&0xF | (name-only?0x10:0): "+whyRole)
+	}
 }
